@@ -95,6 +95,11 @@ CHECKS = {
     technique='TLA+/TLC: the routing cursor machine of DefT.tla is folded over the abstract wires and compared with the listings of the real DefNet.wires/vias; extracted sections compared field by field with the abstract file',
     text='Seeded abstract DEF files with all supported sections and special/regular nets of 0..3 wire segments (point sequences of up to 6 elements over every wildcard pattern, vias with and without orientation, DO n BY m STEP arrays) are rendered and parsed by the real parser. TLC runs the cursor machine (a * coordinate keeps the previous value, a via sits at the cursor, arrays expand to n x m positions) and requires the per-layer wire listings (width, resolved points) and per-type via listings of every net - special and regular alike - to equal the fold, and units, die area, rows, tracks, via definitions, components, pins and connectivity to equal the file.',
     note='Mostly extraction fidelity (DESIGN §7); the cursor machine is what the model decides. Grammar subset: non-negative coordinates, two-number points, ROUTED wiring. Renderer and section normaliser of the harness are trusted.'),
+ 'C15': dict(
+    cat='model_checking', ref='DESIGN.md §4 C15, §3 (EncodingT)',
+    technique='TLA+/TLC: element-wise validation of the results of the real encoding functions against the layout rules of EncodingT.tla (executable statement of the conventions)',
+    text='mvarray (k = 1..4 strings, every pattern count 2..17, all alias characters), mv_str, mv_to_bp, bp_to_mv, bparray on all shapes S <= 3(4) x P <= 17 incl. batched, 1-D and single-signal inputs, unpackbits/packbits for all integer dtypes (8..64 bit, signed/unsigned, boundary values, rows shorter/equal/longer than the width) and popcount: TLC recomputes every element from the documented convention (characters, signals on the second-to-last and patterns on the last axis, bit p%8 of byte p/8 per plane, zero padding, little-end bit order, sign/zero padding) and checks result shapes. Round trips follow from the two layout rules.',
+    note='Encode/decode fidelity: the specification adds little beyond being an executable reference (DESIGN §4 C15, §7); the value is the complete small-shape enumeration. One-character strings are scalars for interpret() and excluded. Trusted: TLC, JSON reader, Python integer arithmetic for bit sequences.'),
  'C07': dict(
     cat='model_checking', ref='DESIGN.md §4 C07, §3 (Schedule, ThreadOrder, SchedReplay)',
     technique='TLA+/TLC: model run of Schedule.tla on the published schedule (all Begin/End interleavings for narrow levels, level-wise static form for all); TLC-simulated thread orders (ThreadOrder.tla) replayed into the real simulators, judged by SchedReplay.tla',
